@@ -113,7 +113,7 @@ func genHashKeys(r *kernel.RNG, n int) []hkey {
 				add(hkey{"arr1", strconv.Itoa(r.PickInt([]int{3, 5, 8}))})
 			}
 		case 5:
-			add(hkey{"arrN", r.Pick([]string{"[1 2]", "[0 0]", "[1 2 3]", "[\"p\" 1]"})})
+			add(hkey{"arrN", r.Pick([]string{"[1 2]", "[0 0]", "[1 2 3]", "[\"p\" 1]", "[]", "[[1] 2]", "[[] []]"})})
 		case 6:
 			// an integer equal to a symbol's number: same bucket as the symbol
 			sym := r.Pick(hashSymNames)
@@ -818,7 +818,11 @@ func execHash(body json.RawMessage) *kernel.Result {
 	if !observe(-1, true) {
 		return res
 	}
+	aliased := false
 	for step, op := range sc.Ops {
+		if !aliased {
+			op.Via = "h" // (a minimised history may have lost its alias step)
+		}
 		H := hexpr(op.Via)
 		k := src[op.K]
 		ck := canon[op.K]
@@ -830,13 +834,14 @@ func execHash(body json.RawMessage) *kernel.Result {
 				return res
 			}
 			res.Probe("alias")
+			aliased = true
 		case "hset":
 			text := fmt.Sprintf("(hset %s %s %d)", H, k, op.V)
 			switch {
-			case op.Route == "index" && op.Via != "arr":
+			case op.Route == "index" && op.Via != "arr" && k != "[]" && strings.Count(k, "[") <= 1:
 				ik := k
 				if sc.Keys[op.K].Kind == "arr1" || sc.Keys[op.K].Kind == "arrN" || sc.Keys[op.K].Kind == "arr2" {
-					ik = strings.Trim(k, "[]") // h[1 2] indexes with the array key [1 2]
+					ik = k[1 : len(k)-1] // h[1 2] indexes with the array key [1 2]: one pair of brackets less
 				}
 				text = fmt.Sprintf("{%s[%s] = %d}", H, ik, op.V)
 				res.Probe("write-by-index-assignment")
